@@ -174,7 +174,15 @@ def replayArr (dom : String) (par : List Sexp) (e0 e1 : Nat) (ops res : List Sex
           | some x, some lo, some hi =>
             let n := (hi - lo + 1).toNat
             if n > 64 then throw (.bad "range too wide") else
-            let ws := (List.range n).flatMap (fun k => (W d).map (fun σ => { σ with iv := σ.iv.setIfInBounds x (lo + k) }))
+            -- fair cut: all pairs (witness, value) when they fit; otherwise round r gives witness j the value
+            -- (j + r) mod n, so that every value and every witness (hence both operands of an earlier join)
+            -- stay represented under the cap (a value-major order would keep only the first values)
+            let wl := W d
+            let m := wl.length
+            let set := fun (σ : AState) (k : Nat) => { σ with iv := σ.iv.setIfInBounds x (lo + (k : Int)) }
+            let ws := if m * n ≤ ACAP then wl.flatMap (fun σ => (List.range n).map (set σ))
+              else (List.range ((ACAP + m - 1) / (max m 1) + 1)).flatMap (fun r =>
+                     (List.range m).map (fun j => set (wl.getD j default) ((j + r) % n)))
             pure (st.g, acap ws, T d)
           | _, _, _ => throw (.bad "range")
         | .list [.atom "ainit", _, a, lb, ub, v] =>
